@@ -212,8 +212,53 @@ func c09FeedGen() *rapid.Generator[c09FeedCase] {
 	})
 }
 
+// c09SplitHeaderFeed: a never-completing handshake message whose 4-byte header is split over the
+// first records (k bytes, then the rest), announcing hlen bytes, followed by nrec full records of body.
+func c09SplitHeaderFeed(client bool, k, hlen, nrec int) c09FeedCase {
+	typ := byte(1)
+	if client {
+		typ = 2
+	}
+	hdr := []byte{typ, byte(hlen >> 16), byte(hlen >> 8), byte(hlen)}
+	var d []byte
+	recd := func(p []byte) {
+		d = append(d, 22, 1, 1, byte(len(p)>>8), byte(len(p)))
+		d = append(d, p...)
+	}
+	if k > 0 && k < 4 {
+		recd(hdr[:k])
+		recd(hdr[k:])
+	} else {
+		recd(hdr)
+	}
+	body := make([]byte, 16000)
+	for i := 0; i < nrec; i++ {
+		recd(body)
+	}
+	return c09FeedCase{Client: client, Data: d}
+}
+
 func TestVF_C09_Feed(t *testing.T) {
-	rec := vfRec("C09", "C09-feed", "arbitrary byte strings (raw; records with valid-looking headers, hostile lengths and plausible handshake headers; mutations of a recorded honest conversation) fed in generated chunk sizes to a fresh client or server that runs Handshake and then Read to exhaustion; oracle: no panic, no reading of an exhausted transport more than 200 times, hand+rawInput within a fixed bound; non-trivial = at least one complete record header reached the parser; distinct = hash of the input")
+	rec := vfRec("C09", "C09-feed", "never-completing handshake messages whose 4-byte header is split over two records in every way and announces 65536 / 65537 / 2^24-1 bytes, followed by 60 full records; arbitrary byte strings (raw; records with valid-looking headers, hostile lengths and plausible handshake headers; mutations of a recorded honest conversation) fed in generated chunk sizes to a fresh client or server that runs Handshake and then Read to exhaustion; oracle: no panic, no reading of an exhausted transport more than 200 times, hand+rawInput within a fixed bound; non-trivial = at least one complete record header reached the parser; distinct = hash of the input")
+	idx := 0
+	for _, client := range []bool{false, true} {
+		for k := 0; k <= 3; k++ {
+			for _, hlen := range []int{65536, 65537, 1 << 20, 1<<24 - 1} {
+				idx++
+				if !vfMine(idx) {
+					continue
+				}
+				c := c09SplitHeaderFeed(client, k, hlen, 60)
+				sig, msg, depth := c09RunFeed(c)
+				if sig != "" {
+					rec.Violation(sig, c, "%s (header split after %d bytes, announced length %d)", msg, k, hlen)
+				}
+				rec.EvalHash(true, vfHash(client, k, hlen), func() interface{} {
+					return map[string]interface{}{"client": client, "header_split": k, "announced": hlen, "records": 60}
+				}, depth, "split-header")
+			}
+		}
+	}
 	vfRapid(t, rec, "feed", vfN(3000, 200000), func(t *rapid.T) {
 		c := c09FeedGen().Draw(t, "case")
 		sig, msg, depth := c09RunFeed(c)
